@@ -263,8 +263,18 @@ func (x *c11World) apply(op string) bool {
 			return false
 		}
 		r := x.req(ref.Tx{Type: ref.TMoveFile, Fields: append(pathFields(dirOf(src)), ref.F(ref.FFileName, macRoman(filepath.Base(src))), ref.F(ref.FFileNewPath, pathFields(p[2])[0].Data))})
+		if r == nil {
+			x.fail("move/not-answered", fmt.Sprintf("%s: a move of a listed partial upload got no reply at all", op))
+		}
 		if r != nil && r.Err == 0 {
-			m.relocate(src, join(p[2], filepath.Base(src)), false)
+			// there is no data file under the final name: the partial data and the forks are what travels
+			dstSides := sideFiles(join(p[2], filepath.Base(src)))
+			for i, sf := range sideFiles(src) {
+				if v, ok := m.ent[sf]; ok {
+					delete(m.ent, sf)
+					m.ent[dstSides[i]] = v
+				}
+			}
 		}
 	case "movefail", "renamefail":
 		// the destination name is taken by a folder: whatever the reply, nothing may change
